@@ -12,9 +12,10 @@ Definition upload_good (c : cfg) (k : kind) (sz : Z) (st : stream) : Prop :=
 
 Definition empty_shortcut (k : kind) (hash : string) (sz : Z) : Prop :=
   k = CAS /\ sz = 0 /\ hash = emptySha256.
-(* the empty blob is acknowledged without storing anything, provided no data came with it *)
+(* the empty blob is acknowledged without storing anything, provided no data came with it and the
+   stream ended cleanly *)
 Definition empty_ok (k : kind) (hash : string) (sz : Z) (st : stream) : Prop :=
-  empty_shortcut k hash sz /\ st_len st <= 0.
+  empty_shortcut k hash sz /\ st_len st <= 0 /\ st_err st = false.
 
 (* a backend object was validated before it is committed or served *)
 Definition fetch_good (c : cfg) (k : kind) (sz claimed : Z) (b : bget) : Prop :=
@@ -106,8 +107,9 @@ Proof.
       destruct (kind_eqb k CAS && (sz =? 0) && String.eqb hash emptySha256) eqn:G4.
       { apply andb_true_iff in G4 as [G4 G6]. apply andb_true_iff in G4 as [G4 G5].
         destruct (st_len st >? 0) eqn:G7; [fin|].
+        destruct (st_err st) eqn:G8; [fin|].
         fin. intros _. right. unfold empty_ok, empty_shortcut.
-        repeat split; [destruct k; try discriminate; reflexivity|lia|apply String.eqb_eq; exact G6|lia]. }
+        repeat split; [destruct k; try discriminate; reflexivity|lia|apply String.eqb_eq; exact G6|lia|exact G8]. }
       break_step; fin.
     + break_step; fin.
     + break_step; fin.
